@@ -3,7 +3,7 @@
    0x45..0xC4, 0xFC00+k for the saturating truncations 0xFC k, 0xFD000+k for vector instruction 0xFD k.
    Operands and results are bit patterns (unsigned Z). No proofs in this file. *)
 From Coq Require Import ZArith Bool List Uint63.
-From Verif Require Import Wasm.Numerics.
+From Verif Require Import Wasm.Numerics Wasm.NumericsF.
 Import ListNotations.
 Open Scope Z_scope.
 
@@ -65,17 +65,81 @@ Definition spec_int (op : Z) (args : list Z) : res :=
   else if op =? 0xc4 then RBits (eval_iunop 64 Extend32S a)
   else RNone.
 
-(* ---- NaN classes on bit patterns (w = 32 or 64) ---- *)
-Definition mant_bits (w : Z) : Z := if w =? 32 then 23 else 52.
-Definition f_is_nan (w x : Z) : bool :=
-  let mw := mant_bits w in
-  (((x / 2 ^ mw) mod 2 ^ (w - 1 - mw)) =? 2 ^ (w - 1 - mw) - 1) && negb (x mod 2 ^ mw =? 0).
-(* canonical NaN: payload is exactly the most significant mantissa bit; sign free *)
-Definition f_is_canon_nan (w x : Z) : bool :=
-  let mw := mant_bits w in f_is_nan w x && (x mod 2 ^ mw =? 2 ^ (mw - 1)).
-(* arithmetic NaN: most significant mantissa bit set *)
-Definition f_is_arith_nan (w x : Z) : bool :=
-  let mw := mant_bits w in f_is_nan w x && (2 ^ (mw - 1) <=? x mod 2 ^ mw).
+(* ---- scalar float instructions ---- *)
+Definition frel_of (k : Z) : option frelop :=
+  match k with 0 => Some FEq | 1 => Some FNe | 2 => Some FLt | 3 => Some FGt | 4 => Some FLe | 5 => Some FGe | _ => None end.
+Definition fun_of (k : Z) : option funop :=
+  match k with
+  | 0 => Some FAbs | 1 => Some FNeg | 2 => Some FCeil | 3 => Some FFloor | 4 => Some FTrunc | 5 => Some FNearest | 6 => Some FSqrt
+  | _ => None
+  end.
+Definition fbin_of (k : Z) : option fbinop :=
+  match k with
+  | 0 => Some FAdd | 1 => Some FSub | 2 => Some FMul | 3 => Some FDiv | 4 => Some FMin | 5 => Some FMax | 6 => Some FCopysign
+  | _ => None
+  end.
+
+(* a float result: exact bits, or - when the specified value is a NaN - the NaN class the operands allow *)
+Definition fres (w : Z) (operands : list Z) (v : Z) : res :=
+  if f_is_nan w v then RNan w (nan_canon_required w operands) else RBits v.
+
+Definition frel_res (w k a b : Z) : res :=
+  match frel_of k with Some o => RBits (eval_frelop w o a b) | None => RNone end.
+Definition fun_res (w k a : Z) : res :=
+  match fun_of k with
+  | Some FAbs => RBits (eval_funop w FAbs a)
+  | Some FNeg => RBits (eval_funop w FNeg a)
+  | Some o => fres w [a] (eval_funop w o a)
+  | None => RNone
+  end.
+Definition fbin_res (w k a b : Z) : res :=
+  match fbin_of k with
+  | Some FCopysign => RBits (eval_fbinop w FCopysign a b)
+  | Some o => fres w [a; b] (eval_fbinop w o a b)
+  | None => RNone
+  end.
+Definition trunc_res (signed : bool) (w N a : Z) : res :=
+  let '(mw, ew) := fmt w in
+  match f_to_int signed mw ew N a with Some v => RBits v | None => RTrap (f_trunc_trap mw ew a) end.
+Definition sat_res (signed : bool) (w N a : Z) : res :=
+  let '(mw, ew) := fmt w in RBits (f_to_int_sat signed mw ew N a).
+
+Definition spec_float (op : Z) (args : list Z) : res :=
+  let a := arg 0 args in let b := arg 1 args in
+  if between 0x5b op 0x60 then frel_res 32 (op - 0x5b) a b
+  else if between 0x61 op 0x66 then frel_res 64 (op - 0x61) a b
+  else if between 0x8b op 0x91 then fun_res 32 (op - 0x8b) a
+  else if between 0x92 op 0x98 then fbin_res 32 (op - 0x92) a b
+  else if between 0x99 op 0x9f then fun_res 64 (op - 0x99) a
+  else if between 0xa0 op 0xa6 then fbin_res 64 (op - 0xa0) a b
+  else if op =? 0xa8 then trunc_res true 32 32 a
+  else if op =? 0xa9 then trunc_res false 32 32 a
+  else if op =? 0xaa then trunc_res true 64 32 a
+  else if op =? 0xab then trunc_res false 64 32 a
+  else if op =? 0xae then trunc_res true 32 64 a
+  else if op =? 0xaf then trunc_res false 32 64 a
+  else if op =? 0xb0 then trunc_res true 64 64 a
+  else if op =? 0xb1 then trunc_res false 64 64 a
+  else if op =? 0xb2 then RBits (f32_convert true 32 a)
+  else if op =? 0xb3 then RBits (f32_convert false 32 a)
+  else if op =? 0xb4 then RBits (f32_convert true 64 a)
+  else if op =? 0xb5 then RBits (f32_convert false 64 a)
+  else if op =? 0xb6 then (if f_is_nan 64 a then RNan 32 (nan_canon_required 64 [a]) else RBits (f32_demote a))
+  else if op =? 0xb7 then RBits (f64_convert true 32 a)
+  else if op =? 0xb8 then RBits (f64_convert false 32 a)
+  else if op =? 0xb9 then RBits (f64_convert true 64 a)
+  else if op =? 0xba then RBits (f64_convert false 64 a)
+  else if op =? 0xbb then (if f_is_nan 32 a then RNan 64 (nan_canon_required 32 [a]) else RBits (f64_promote a))
+  else if between 0xbc op 0xbf then RBits a
+  else if op =? 0xfc00 then sat_res true 32 32 a
+  else if op =? 0xfc01 then sat_res false 32 32 a
+  else if op =? 0xfc02 then sat_res true 64 32 a
+  else if op =? 0xfc03 then sat_res false 64 32 a
+  else if op =? 0xfc04 then sat_res true 32 64 a
+  else if op =? 0xfc05 then sat_res false 32 64 a
+  else if op =? 0xfc06 then sat_res true 64 64 a
+  else if op =? 0xfc07 then sat_res false 64 64 a
+  else RNone.
 
 (* lanes of a vector, lane 0 = least significant *)
 Fixpoint split_lanes (n : nat) (w v : Z) : list Z :=
@@ -108,7 +172,11 @@ Definition res_ok (r : res) (o : Z) : bool :=
   | RNone => false
   end.
 
-Definition spec_op (op imm : Z) (args : list Z) : res := spec_int op args.
+Definition spec_op (op imm : Z) (args : list Z) : res :=
+  match spec_int op args with
+  | RNone => spec_float op args
+  | r => r
+  end.
 
 (* a case: operation, immediate, operand bit patterns, the distinct observations recorded for it *)
 Definition case := (Z * Z * list Z * list Z)%type.
